@@ -115,7 +115,7 @@ def compile_violation(pid, corpus_name, decls, linemap, diags, crate):
 
 
 def trace_leg(pid, tier, seed, corpus_name, decls, declfile, modes, budget, profiles=("dev",), builder=False, crate=None,
-              shard_bytes=1500000):
+              shard_bytes=1500000, binding_events=("get", "with", "set", "raw", "build", "new")):
     """Build the corpus with the real macro from REPO's working tree, record, validate.  Returns stats.
     Raises Violation (after reproducing) when the trace of the real code is not a behaviour of the spec."""
     crate = crate or ("rt-" + corpus_name)
@@ -173,7 +173,7 @@ def trace_leg(pid, tier, seed, corpus_name, decls, declfile, modes, budget, prof
         st.update({"profile": profile, "shards": len(shards), "build_s": round(tb, 1), "validate_s": round(tv, 1),
                    "tlc_states": sum(r["generated"] for r in results)})
         if not stats["runs"]:
-            st["binding_demo"] = binding_demo(shards[0], declfile)
+            st["binding_demo"] = binding_demo(shards[0], declfile, binding_events)
         stats["runs"].append(st)
         # big accepted traces are not kept (disk): their digest and statistics are
         try:
@@ -248,14 +248,14 @@ def sim_leg(pid, tier, seed, crate, decls, declfile, num, depth, profile="dev"):
             "sample": {"decl": behs[0]["decl"], "steps": behs[0]["steps"][:3]}}
 
 
-def binding_demo(shard, declfile):
+def binding_demo(shard, declfile, kinds=("get", "with", "set", "raw", "build", "new")):
     """vacuity guard, run on every check run: one logged observation of an accepted trace is corrupted (one bit flipped in a
     result / post-state) and TLC must reject the trace at exactly that line; one event is dropped and TLC must notice."""
     lines = open(shard).read().splitlines()
     pick = None
     for k in range(len(lines) // 2, len(lines)):
         ev = json.loads(lines[k])
-        if ev["ev"] in ("get", "with", "set", "raw", "build", "new") and ("res" in ev or "dst_raw" in ev or "raw" in ev):
+        if ev["ev"] in kinds and ("res" in ev or "dst_raw" in ev or "raw" in ev):
             if ev.get("panic") or (isinstance(ev.get("res"), dict) and ev["res"].get("k") == "panic"):
                 continue        # a panic carries no value that could be corrupted
             pick = k
@@ -472,6 +472,7 @@ def c01(pid, tier, seed, t0):
     _, model = vlib.corpus("model")
     rnd = sub(gen_random(tier, seed, "overlap", "c01", 60, 600, custom=True), lambda d, f: contiguous(d, f) and f["access"] != "w")
     decls = copyd(star) + copyd(model) + copyd(rnd) + (tall_chunks() if tier == "thorough" else [])
+    decls = vlib.vary_names(decls)
     declfile = save_decls("C01", decls)
     legs = [trace_leg(pid, tier, seed, "star+model+rand", decls, declfile, "get,tableget", q(tier, 1, 6), crate="rt-c01")]
     # symbolically also EVERY (lo, hi) of the bases up to 33 bits (thorough: all 11 T-all bases are in decls already)
@@ -495,6 +496,7 @@ def c02(pid, tier, seed, t0):
     for d in arrs:
         d["fields"] = d["fields"][:: q(tier, 6, 2)]
     decls = copyd(star) + copyd(model) + copyd(rnd) + copyd(nc) + arrs + (tall_chunks() if tier == "thorough" else [])
+    decls = vlib.vary_names(decls)
     declfile = save_decls("C02", decls)
     legs = [trace_leg(pid, tier, seed, "star+model+rand", decls, declfile, "write,table", q(tier, 1, 2), crate="rt-c02")]
     PROOFS["C02"] = tlaps_leg(["Frame", "RoundTrip", "WriteBackIdentity", "WriteIdempotent"])
@@ -518,6 +520,7 @@ def c03(pid, tier, seed, t0):
         for d in decls:
             if d["n"] in (100, 128) and len(d["fields"]) > 60:
                 d["fields"] = d["fields"][::2]
+    decls = vlib.vary_names(decls)
     declfile = save_decls("C03", decls)
     legs = [trace_leg(pid, tier, seed, "arr+nc-arrays+rand", decls, declfile, "get,write", q(tier, 1, 3), crate="rt-c03")]
     PROOFS["C03"] = tlaps_leg(["ElemInj", "ElemDisjoint (elements at lo + i*stride with stride >= width never share a bit)", "RoundTrip", "Frame"])
@@ -534,6 +537,7 @@ def c04(pid, tier, seed, t0):
     _, nc = vlib.corpus("nc")
     rnd = sub(gen_random(tier, seed, "overlap", "c04", 150, 2000, custom=True), lambda d, f: f["list"])
     decls = copyd(nc) + copyd(rnd)
+    decls = vlib.vary_names(decls)
     declfile = save_decls("C04", decls)
     legs = [trace_leg(pid, tier, seed, "nc+rand", decls, declfile, "get,write,table", q(tier, 2, 6), crate="rt-c04")]
     PROOFS["C04"] = tlaps_leg(["Frame", "RoundTrip (Inj(p) is C04's exclusion of duplicate bits)", "GatherConcat", "ScatterConcat (ranges concatenate, first range least significant)"])
@@ -602,6 +606,7 @@ def c08(pid, tier, seed, t0):
     _, cust = vlib.corpus("cust")
     rnd = sub(gen_random(tier, seed, "overlap", "c08", 150, 1500, custom=True), lambda d, f: f["kind"] in ("enum", "optenum", "nested"))
     decls = copyd(cust) + copyd(rnd)
+    decls = vlib.vary_names(decls)
     declfile = save_decls("C08", decls)
     legs = [trace_leg(pid, tier, seed, "cust", decls, declfile, "get,write", q(tier, 1, 4), crate="rt-c08")]
     sym(pid, decls)
@@ -672,6 +677,7 @@ def c12(pid, tier, seed, t0):
     _, nc = vlib.corpus("nc")
     rnd = gen_random(tier, seed, "overlap", "c12", 150, 1500, maxfields=8, custom=True)
     decls = copyd(model) + copyd(nc) + copyd(rnd)
+    decls = vlib.vary_names(decls)
     declfile = save_decls("C12", decls)
     legs = [trace_leg(pid, tier, seed, "model+nc+rand(overlapping)", decls, declfile, "history", q(tier, 3, 12), crate="rt-c12")]
     PROOFS["C12"] = tlaps_leg(["LastWriteWinsStep", "DisjointCommute", "Frame"])
@@ -688,6 +694,7 @@ def c13(pid, tier, seed, t0):
     _, bld = vlib.corpus("bld")
     rnd = [d for d in gen_random(tier, seed, "valid", "c13", 150, 1500, custom=True) if builder_sound_py(d)]
     decls = copyd(bld) + copyd(rnd)
+    decls = vlib.vary_names(decls)
     declfile = save_decls("C13", decls)
     legs = [trace_leg(pid, tier, seed, "bld+rand(valid, builder offered)", decls, declfile, "build", q(tier, 2, 40), builder=True, crate="rt-c13")]
     # the recorded builder chain of every layout, decided for ALL argument tuples
@@ -730,7 +737,10 @@ def c16(pid, tier, seed, t0):
     _, nc = vlib.corpus("nc")
     _, cust = vlib.corpus("cust")
     rnd = gen_random(tier, seed, "overlap", "c16", 100, 1000, custom=True)
-    decls = copyd(star) + copyd(arr) + copyd(nc) + copyd(rnd) + copyd(cust)[:: q(tier, 3, 1)]
+    # custom-typed fields as wide as the storage take the full-width special case of the generator: never thinned away
+    fullw = [d for d in cust if any(rustgen.width(f) == d["s"] for f in d["fields"])]
+    decls = copyd(star) + copyd(arr) + copyd(nc) + copyd(rnd) + copyd([d for d in cust if d not in fullw])[:: q(tier, 3, 1)]
+    fullw = copyd(fullw)
     if tier == "thorough":
         decls += tall_chunks(lambda d, f: f["ranges"][0][1] >= d["n"] - 2 or f["ranges"][0][0] <= 1 or rustgen.width(f) in (1, 7, 8, 9, 31, 32, 33, 63, 64, 65))
     if tier == "quick":
@@ -741,21 +751,32 @@ def c16(pid, tier, seed, t0):
                 rest = [f for f in d["fields"] if f not in top]
                 d["fields"] = top[::2] + rest[::16]
         decls = [d for k, d in enumerate(decls) if k < 45 or k % 3 == 0]
+    decls += fullw
+    decls = vlib.vary_names(decls)
     declfile = save_decls("C16", decls)
     leg = trace_leg(pid, tier, seed, "star+arr+nc+rand", decls, declfile, "get,write", q(tier, 1, 3), profiles=("dev", "release"), crate="rt-c16")
     # overflow outcomes for ALL inputs: a shift by >= the width or an extract_uN contract violation on any evaluated path of
     # any recorded accessor body (decided symbolically; profile-independent by construction)
     sym(pid, decls)
-    dg = leg["digests"]
-    if dg["dev"] != dg["release"]:
-        info = {"property": pid, "kind": "digest", "digests": dg,
-                "explanation": "both traces are behaviours of the specification, yet they differ between profiles"}
-        raise Violation(write_replay(pid, info))
-    finish(pid, tier, seed, t0, mc, [leg],
+    # accepted declarations whose range lists name a bit twice: the value is outside C04's guarantee (Register!WithDup takes
+    # whatever state the implementation produced), but the calls must be total and the same in both profiles
+    _, dup = vlib.corpus("dup")
+    dups = copyd(dup)
+    dfile = save_decls("C16dup", dups)
+    dleg = trace_leg(pid, tier, seed, "self-overlapping range lists", dups, dfile, "get,write", 1, profiles=("dev", "release"), crate="rt-c16d",
+                     binding_events=("raw", "new"))   # the value of a get/with/set is unspecified here: nothing to corrupt
+    for lg in (leg, dleg):
+        dg = lg["digests"]
+        if dg["dev"] != dg["release"]:
+            info = {"property": pid, "kind": "digest", "digests": dg, "corpus": lg.get("corpus", ""),
+                    "explanation": "both traces are behaviours of the specification, yet they differ between profiles"}
+            raise Violation(write_replay(pid, info))
+    finish(pid, tier, seed, t0, mc, [leg, dleg],
            "the C01-C05 drivers (edge-pattern reads, with_/set_ writes, out-of-range indices) on Q-star/Q-arr/Q-nc and seeded "
            "declarations executed under profile dev (opt-level 0, overflow checks and debug assertions on) and release (opt-level 3, "
            "both off); BOTH traces validated step by step (any panic other than an out-of-range index, any wrapped shift, is a "
-           "rejected event) and their digests compared", COMMON_ASSUMPTIONS,
+           "rejected event) and their digests compared; plus Q-dup: range lists that name a bit twice (accepted by the macro; "
+           "value unspecified, but no panic/overflow and identical in both profiles)", COMMON_ASSUMPTIONS,
            extra={"profiles": {"dev": "opt-level=0 overflow-checks=on debug-assertions=on", "release": "opt-level=3 overflow-checks=off debug-assertions=off"}})
 
 
@@ -769,6 +790,7 @@ def c19(pid, tier, seed, t0):
             d = dict(d, fields=[dict(f, access="r" if f["access"] == "w" else f["access"]) for f in fs], debug=True)
             rnd.append(d)
     decls = copyd(dbg) + copyd(rnd)
+    decls = vlib.vary_names(decls)
     declfile = save_decls("C19", decls)
     legs = [trace_leg(pid, tier, seed, "dbg+rand", decls, declfile, "debug", q(tier, 2, 10), crate="rt-c19")]
     finish(pid, tier, seed, t0, mc, legs,
